@@ -44,6 +44,25 @@ class _TunnellingFeature:
     def _has_data(self) -> bool:
         return True
 
+    def _header_from_knx(self, raw: bytes) -> None:
+        """Parse connection header and feature identifier."""
+        if (
+            len(raw)
+            < _TunnellingFeature.HEADER_LENGTH + _TunnellingFeature.FEATURE_ID_LENGTH
+        ):
+            raise CouldNotParseKNXIP("TunnellingFeature has wrong length")
+        if raw[0] != _TunnellingFeature.HEADER_LENGTH:  # structure_length field
+            raise CouldNotParseKNXIP("TunnellingFeature header has invalid length")
+        self.communication_channel_id = raw[1]
+        self.sequence_counter = raw[2]
+        try:
+            self.status_code = ErrorCode(raw[3])
+            self.feature_type = TunnellingFeatureType(raw[4])
+        except ValueError as err:
+            raise CouldNotParseKNXIP(
+                "TunnellingFeature has unsupported status code or feature type"
+            ) from err
+
     def calculated_length(self) -> int:
         """Get length of KNX/IP body."""
         data_size = len(self.data) + (len(self.data) % 2) if self._has_data() else 0
@@ -55,12 +74,7 @@ class _TunnellingFeature:
 
     def from_knx(self, raw: bytes) -> int:
         """Parse/deserialize from KNX/IP raw data."""
-        if raw[0] != _TunnellingFeature.HEADER_LENGTH:  # structure_length field
-            raise CouldNotParseKNXIP("TunnellingFeature header has invalid length")
-        self.communication_channel_id = raw[1]
-        self.sequence_counter = raw[2]
-        self.status_code = ErrorCode(raw[3])
-        self.feature_type = TunnellingFeatureType(raw[4])
+        self._header_from_knx(raw)
         self.data = raw[6:]
         if self._has_data() and len(self.data) == 0:
             raise CouldNotParseKNXIP("TunnellingFeature missing data")
@@ -182,12 +196,7 @@ class TunnellingFeatureResponse(_TunnellingFeature, KNXIPBodyResponse):
 
     def from_knx(self, raw: bytes) -> int:
         """Parse/deserialize from KNX/IP raw data."""
-        if raw[0] != _TunnellingFeature.HEADER_LENGTH:  # structure_length field
-            raise CouldNotParseKNXIP("TunnellingFeature header has invalid length")
-        self.communication_channel_id = raw[1]
-        self.sequence_counter = raw[2]
-        self.status_code = ErrorCode(raw[3])
-        self.feature_type = TunnellingFeatureType(raw[4])
+        self._header_from_knx(raw)
         try:
             self.return_code = ReturnCode(raw[5])
         except ValueError:
